@@ -233,24 +233,102 @@ def e_ListComp(self, st, node):
                                         nxt.append((s4, items + [v4]))
                     acc = nxt
                 return [(s1, "val", s1.alloc(HObj("list", kind="list", items=items))) for (s1, items) in acc]
+    if getattr(self, "desugar_comprehensions", True) and not any(g.is_async for g in node.generators):
+        return x_comprehend(self, st, node, "list")
     ref = st.alloc(HObj("list", kind="list", items=None))
     st.wobj(ref).base = "comp@%s" % getattr(node, "lineno", 0)
     return [(st, "val", ref)]
 
 
+def _comp_loops(node, innermost):
+    """for/if nest of a comprehension's generators around the statement list `innermost`"""
+    body = innermost
+    for gen in reversed(node.generators):
+        for c in reversed(gen.ifs):
+            body = [ast.If(test=c, body=body, orelse=[])]
+        body = [ast.For(target=gen.target, iter=gen.iter, body=body, orelse=[])]
+    mod = ast.Module(body=body, type_ignores=[])
+    for n in ast.walk(mod):
+        if not hasattr(n, "lineno"):
+            ast.copy_location(n, node)
+        if not hasattr(n, "end_lineno"):
+            n.end_lineno = getattr(node, "end_lineno", getattr(node, "lineno", 0))
+        if not hasattr(n, "col_offset"):
+            n.col_offset = 0
+            n.end_col_offset = 0
+    return mod.body
+
+
+def x_run_comprehension(self, st, node, stmts, result):
+    """Run desugared comprehension statements in a scope of their own (the enclosing frame's names are visible, the loop
+    variables do not leak).  result(state, kind, value, frame) -> outcome for 'next'/'return' exits."""
+    frame = dict(st.frames[-1])
+    st.frames.append(frame)
+    res = []
+    for (s, k, v) in self.exec_block(st, stmts):
+        fr = s.frames.pop()
+        if k == "raise":
+            res.append((s, k, v))
+        elif k in ("next", "return"):
+            res.append(result(s, k, v, fr))
+    return res
+
+
+def x_comprehend(self, st, node, kind):
+    cache = getattr(node, "_desugared", None)
+    if cache is None:
+        acc = ast.Name(id="@acc", ctx=ast.Load())
+        if kind == "dict":
+            inner = [ast.Assign(targets=[ast.Subscript(value=acc, slice=node.key, ctx=ast.Store())], value=node.value)]
+        else:
+            inner = [ast.Expr(value=ast.Call(func=ast.Attribute(value=acc, attr="append" if kind == "list" else "add", ctx=ast.Load()),
+                                             args=[node.elt], keywords=[]))]
+        cache = node._desugared = _comp_loops(node, inner)
+    ref = st.alloc(HObj(kind, kind=kind, items=[]))
+    st.frames[-1]["@acc"] = ref
+    outs = x_run_comprehension(self, st, node, cache, lambda s, k, v, fr: (s, "val", fr.get("@acc", ref)))
+    for (s, k, v) in outs:
+        s.frames[-1].pop("@acc", None)
+    return outs
+
+
+def x_any_all(self, st, node, genexp, is_any):
+    """any(<generator expression>) / all(...): the loops with an early return at the first deciding element."""
+    key = "_desugared_any" if is_any else "_desugared_all"
+    cache = getattr(genexp, key, None)
+    if cache is None:
+        test = genexp.elt if is_any else ast.UnaryOp(op=ast.Not(), operand=genexp.elt)
+        inner = [ast.If(test=test, body=[ast.Return(value=ast.Constant(value=is_any))], orelse=[])]
+        cache = _comp_loops(genexp, inner)
+        setattr(genexp, key, cache)
+    return x_run_comprehension(self, st, genexp, cache,
+                               lambda s, k, v, fr: (s, "val", v if k == "return" else (not is_any)))
+
+
 def e_GeneratorExp(self, st, node):
     # evaluated eagerly like a list comprehension (sound when it is consumed completely and
     # its element expressions have no side effects the consumer depends on)
-    if getattr(self, "eager_genexp", True) and len(node.generators) == 1:
+    if getattr(self, "eager_genexp", True):
         return e_ListComp(self, st, node)
     return [(st, "val", Top("genexp@%s" % getattr(node, "lineno", 0)))]
 
 
 def e_SetComp(self, st, node):
-    return [(st, "val", Top("comp@%s" % getattr(node, "lineno", 0)))]
+    outs = []
+    for (s, k, v) in e_ListComp(self, st, node):
+        if k != "val" or not isinstance(v, Ref) or s.obj(v).items is None:
+            outs.append((s, k, v) if k != "val" else (s, "val", s.alloc(HObj("set", kind="set", items=None))))
+            continue
+        items = []
+        for x in s.obj(v).items:
+            if not any(_abscall._same_member(self, s, x, y) for y in items):
+                items.append(x)
+        outs.append((s, "val", s.alloc(HObj("set", kind="set", items=items))))
+    return outs
 
 
-e_DictComp = e_SetComp
+def e_DictComp(self, st, node):
+    return x_comprehend(self, st, node, "dict")
 
 
 # ----------------------------------------------------------------------
@@ -367,6 +445,11 @@ def x_binop(self, st, op, a, b, node):
         except Exception:   # noqa
             pass
         return Top("strfmt", False)
+    if isinstance(op, ast.Mult) and ((isinstance(a, str) and isinstance(b, int) and not isinstance(b, bool)) or
+                                     (isinstance(b, str) and isinstance(a, int) and not isinstance(a, bool))):
+        n_ = b if isinstance(a, str) else a
+        if -1 <= n_ <= 10000:
+            return a * b
     if isinstance(op, (ast.Sub, ast.Mult, ast.Div, ast.FloorDiv)) and all(
             isinstance(x, (int, float)) and not isinstance(x, bool) for x in (a, b)):
         try:
